@@ -245,7 +245,9 @@ func (m *Morass) write() {
 	}
 
 	verifStep("write-before-sync", tf, 0)
-	m.setErr(tf.Sync())
+	if err := tf.Sync(); err != nil {
+		m.setErr(err)
+	}
 }
 
 func (m *Morass) setErr(err error) {
